@@ -1198,6 +1198,7 @@ func (hv *Hash) ToKey(b *bytes.Buffer) {
 	for _, e := range hv.entries {
 		e.ToKey(b)
 	}
+	b.WriteByte(HkEnd)
 }
 
 func (hv *Hash) ToString(b io.Writer, s px.FormatContext, g px.RDetect) {
